@@ -285,7 +285,10 @@ def execute(plan):
 
     # ---- the other public routes, all against the serial kernel result
     ref = out1
-    scale = float(np.nanmax(np.abs(ref))) if ref.size else 0.0
+    # absolute tolerance from the size of the terms that are summed, not from the result (which may cancel to zero)
+    inv_dx = np.concatenate([1 / np.asarray(grid.discretization, dtype=float), 1 / np.asarray(grid.discretization, dtype=float) ** 2])
+    term_scale = float(np.nanmax(np.abs(full))) * float(np.max(inv_dx)) if full.size else 0.0
+    scale = max(float(np.nanmax(np.abs(ref))) if ref.size else 0.0, term_scale)
     atol = 1e-10 * max(scale, 1e-30)
 
     def agree(route, value, must=True):
@@ -447,7 +450,9 @@ def _linked_value_sequence(plan, grid, gspec, fcls, data, name, kw, rank_in, out
         fref.set_ghost_cells(bcs_ref)
         ref = np.full(out_shape, np.nan, dtype=fref._data_full.dtype)
         op_no_bc(np.array(fref._data_full, copy=True), ref)
-        scale = float(np.nanmax(np.abs(ref))) if ref.size else 0.0
+        inv_dx = np.concatenate([1 / np.asarray(grid.discretization, dtype=float), 1 / np.asarray(grid.discretization, dtype=float) ** 2])
+        scale = max(float(np.nanmax(np.abs(ref))) if ref.size else 0.0,
+                    float(np.nanmax(np.abs(fref._data_full))) * float(np.max(inv_dx)))
 
         def agree(route, value):
             value = np.asarray(value)
